@@ -12,11 +12,11 @@ CHECKS = {
          "Reference oracle and the 10s drift constant are trusted; values outside the alphabet are not covered.", "2.1 C01"),
  "C02": ("E1-inputs", "model_checking",
          "exhaustive enumeration of all header-kind sequences up to length L on the real VerifyRange vs a reference fold",
-         "All sequences of length 0..4 (quick) / 0..6 (thorough) over 10 per-position header kinds, for non-zero and zero trusted headers, are run on the real VerifyRange; result must be input[:k] by identity with k computed by a reference fold, error iff k<len.",
+         "All sequences of length 0..4 (quick) / 0..6 (thorough) over 12 per-position header kinds (incl. type-level soft and plain rejections of a well-formed adjacent header), for non-zero and zero trusted headers, are run on the real VerifyRange; result must be input[:k] by identity with k computed by a reference fold, error iff k<len.",
          "Reference fold (C01 reference + adjacency) and the harness header type's Verify are trusted.", "2.1 C02"),
  "C04": ("E1-seqx", "model_checking",
          "explicit-state BFS over operation histories on the real store.Store (replay-from-scratch successors, state dedup), invariant oracle in every state",
-         "Breadth-first exploration of every history (depth 3 quick / 4 thorough) over Append of all contiguous slices (len<=3, ascending and reversed; thorough: gapped pairs), tail/head/whole/middle/beyond DeleteRange, Append directly followed by DeleteRange on a slow datastore (flush still in flight), Restart and ReadAll, for batch sizes {1,2,(3),64} x cache sizes {2,default} x {plain, context-aware+txn} datastore, on the real Store inside a synctest bubble; in every reached state the C04 clauses (gap-free Tail..Head, lookups by height/hash agree, Has/HasAt, all GetRange pairs, Height==Head, Head top of run, every live header readable) are evaluated against a set-of-live-heights model.",
+         "Breadth-first exploration of every history (depth 3 quick / 4 thorough) over Append of all contiguous slices (len<=3, ascending and reversed; thorough: gapped pairs), tail/head/whole/middle/beyond DeleteRange, Append directly followed by DeleteRange on a slow datastore (flush still in flight), Restart and ReadAll, plus a clean-restart probe on every state of the last level, for batch sizes {1,2,(3),64} x cache sizes {2,default} x {plain, context-aware+txn} datastore, on the real Store inside a synctest bubble; in every reached state the C04 clauses (gap-free Tail..Head, lookups by height/hash agree, Has/HasAt, all GetRange pairs, Height==Head, Head top of run, every live header readable) are evaluated against a set-of-live-heights model.",
          "State key omits 2Q ghost lists; chain of 5-6 headers; Sync+quiescence after each op (the property is stated for synced writes).", "2.2 C04"),
  "C08": ("E1-seqx", "model_checking",
          "explicit-state enumeration: every reachable store state x every (from,to) pair x continuation x single write-fault position, executed on the real store and compared with the reference model",
@@ -24,7 +24,7 @@ CHECKS = {
          "Open findings F06/F07 (write-fault paths) are reported as KNOWN-FINDING; fault model = one failing write attempt (put/delete/batch/commit).", "2.2 C08"),
  "C14": ("E1-seqx", "fault_enumeration",
          "exhaustive enumeration of handler fault positions (handler i, invocation k, error|panic) over every reachable state x accepted range, sequential and parallel deletion path, on the real store",
-         "Every accepted range in every BFS state, with 1 and 2 registered handlers that read the header through GetByHeight, no fault and every (i,k,error|panic); oracle: per removed height each handler exactly once, header readable inside the handler, no datastore delete of its keys in the commit log before the last handler returned, failing height stays readable, error surfaced, tail-side retry re-invokes handlers and completes; plus a handler rejecting every height >= X (several parallel workers failing at different heights): Tail never moves past X, nothing >= X is removed, the retry re-invokes the handler exactly once per remaining height. The parallel path is reached by lowering the threshold through the verif hook.",
+         "Every accepted range in every BFS state, with 1 and 2 registered handlers that read the header through GetByHeight, no fault and every (i,k,error|panic|error wrapping datastore.ErrNotFound); oracle: per removed height each handler exactly once, header readable inside the handler, no datastore delete of its keys in the commit log before the last handler returned, failing height stays readable, error surfaced, tail-side retry re-invokes handlers and completes; plus a handler rejecting every height >= X (several parallel workers failing at different heights): Tail never moves past X, nothing >= X is removed, the retry re-invokes the handler exactly once per remaining height. The parallel path is reached by lowering the threshold through the verif hook.",
          "Parallel path runs with real goroutines (48 workers) inside the bubble: its internal interleavings are sampled by the Go scheduler, not enumerated.", "2.2 C14"),
  "C06": ("E3-crashx", "fault_enumeration",
          "exhaustive crash-point enumeration (every commit-log prefix of every transition of the explored state graph) and exhaustive placement of 1..3 consecutive failing flush writes, on the real store",
@@ -47,12 +47,12 @@ CHECKS = {
          "12 payload classes x 11 verifier outcomes (132, complete) run on the Subscriber's real validator via the verif export: verdict must equal the reference mapping, verifier never called for undecodable/invalid payloads, ValidatorData is the decoded header, no panic escapes, waiting for a late SetVerifier works; 11 classes are additionally published over a 3-node gossipsub line to observe delivery to Subscriptions and relay.",
          "Peer-score effects are inferred from the validation result (pubsub semantics trusted).", "2.4 C11"),
  "C13": ("E1-netx", "fault_enumeration",
-         "exhaustive enumeration of per-peer answer assignments (17-entry catalogue) and arrival orders for 1-3 (thorough 4) trusted peers against the real Exchange.Get/GetByHeight",
+         "exhaustive enumeration of per-peer answer assignments (19-entry catalogue) and arrival orders for 1-3 (thorough 4) trusted peers against the real Exchange.Get/GetByHeight",
          "All assignments for n=1,2, reduced x full for n=3 (thorough: full 17^3, n=4 with <=2 bad), all 6 arrival permutations for the reduced catalogue; x {Get, GetByHeight} x {present, absent, zero target} x chain id {set, unset} x transport {honours, ignores deadlines}. Oracle: never (zero,nil), no panic, returned header validated/right chain/right hash, some peer really sent it, first valid answer wins, error when none valid, returns by the caller's deadline.",
          "A header type whose own UnmarshalBinary panics is excluded (type-level).", "2.4 C13"),
  "C18": ("E1-netx", "model_checking",
          "exhaustive enumeration of the configuration product (chunk size, range length 1..3m, peers, per-peer availability vectors, one benign fault x faulty peer) with real ExchangeServers and the real Exchange over mocknet; plus stateless DFS over the thread schedules of the session (instrumented p2p package) with preemption bounding",
-         "m in {1,2,3,5,64}, L=1..3m (64: {1,63,64,65,128,150}), 1-3 (thorough 4) honest peers with availability in {empty, up to from, half, full}^P (>=1 full), faults {none, slow beyond RequestTimeout, disconnect after first answer, store grows, connection dropped 1ms / 4ms into the call while every answer takes 3ms (peer idle in the session queue)}; result must be exactly from+1..to-1 ascending with nil error before the caller's deadline; plus Head/Get/GetByHeight byte-exact round trips. Schedule part: the same scenarios as C05's schedule part (all schedules with <= 1 preemption, thorough <= 2, of the client's goroutines against real servers).",
+         "m in {1,2,3,5,64}, L=1..3m (64: {1,63,64,65,128,150}), 1-3 (thorough 4) honest peers with availability in {empty, up to from, half, full}^P (>=1 full), faults {none, slow beyond RequestTimeout (also on a transport that ignores deadlines: a late but complete answer), disconnect after first answer, store grows, connection dropped 1ms / 4ms into the call while every answer takes 3ms (peer idle in the session queue)}; result must be exactly from+1..to-1 ascending with nil error before the caller's deadline; plus Head/Get/GetByHeight byte-exact round trips. Schedule part: the same scenarios as C05's schedule part (all schedules with <= 1 preemption, thorough <= 2, of the client's goroutines against real servers).",
          "At most one benign fault per run; servers use a simple honest in-memory store; in the schedule part a network round trip is atomic within the requesting thread's step.", "2.4 C18"),
  "C03": ("E1-syncx", "model_checking",
          "explicit-state BFS over environment event histories (gossip deliveries, Head() calls, held getter answers, clock advances) on the real Syncer + real Store, oracle in every state; plus stateless DFS over thread schedules of the instrumented sync package with preemption bounding",
@@ -68,11 +68,11 @@ CHECKS = {
          "Getter honest apart from injected fetch errors.", "2.3 C15"),
  "C16": ("E1-syncx", "model_checking",
          "exhaustive enumeration of the Validate-accepted parameter product x chain shapes x stores x reconfiguration pairs through the Syncer's public API",
-         "PruningWindow {0,w/2,w,3w} x SyncFromHeight {0,1,3,6,h0,N,N+3} x SyncFromHash {none, below tail, mid, head, unknown} x blockTime {unset,b,10b} x trustingPeriod {small, large} x chain shapes {uniform, fast, slow, halted mid/tip, young, bursty} x stores {empty, [1..h0], [4..h0]} and all ordered pairs (thorough: triples) of 9 parameter sets as reconfigurations; oracle: no panic, Start/Head return and fail only for a non-existent tail, store stays one gap-free chain with 1<=Tail<=Head, nothing inside the window is pruned when spacing <= blockTime, getter never asked for heights outside the chain.",
+         "PruningWindow {0,w/2,w,3w} x SyncFromHeight {0,1,3,6,h0,N,N+3} x SyncFromHash {none, below tail, mid, head, unknown} x blockTime {unset,b,10b} x trustingPeriod {small, large} x chain shapes {uniform, fast, slow, halted mid/tip, young, bursty, slow-then-fast, fast-then-slow} x stores {empty, [1..h0], [4..h0]}; each step is Start, Head() and gossip delivery of the whole chain with the tip first (so the tail is re-estimated across a gap with a store present); and all ordered pairs (thorough: triples) of 9 parameter sets as reconfigurations; oracle: no panic, Start/Head return and fail only for a non-existent tail, store stays one gap-free chain with 1<=Tail<=Head, nothing inside the window is pruned when spacing <= blockTime, getter never asked for heights outside the chain.",
          "Open finding F13 reported as KNOWN-FINDING.", "2.3 C16"),
  "C19": ("E1-syncx", "model_checking",
          "explicit-state BFS over histories of Head() calls, clock advances, deliveries and held trusted-head answers on the real Syncer, per-call and per-state oracle; plus stateless DFS over thread schedules of three concurrent Head() callers (instrumented sync package)",
-         "Stores {empty, fresh, stale, expired head (peers fresh / peers expired), stale head with trusted peers lagging behind gossip}; events Head(), deliver next, advance {3s, 40s, 4000s}, answers of the held trusted-head request {newer, same, one above the verified head, tip, error, soft+header} and of the initialisation request {fresh tip, old, error}; depth 5 quick / 7 thorough. Per completed Head(): no request when recent, exactly one request carrying the subjective head when stale, re-initialisation only adopts non-expired heads; per state: at most one head request in flight (single flight) and results never decrease in completion order. Schedule part: all schedules with <= 1 preemption (thorough <= 2) of three concurrent Head() callers on a stale head: exactly one request carrying the subjective head, results never decrease.",
+         "Stores {empty, fresh, stale, expired head (peers fresh / peers expired), stale head with trusted peers lagging behind gossip}; events Head(), deliver next, advance {3s, 40s, 4000s}, answers of the held trusted-head request {newer, same, one above the verified head, tip, error, soft+header} and of the initialisation request {fresh tip, old, error}; depth 5 quick / 7 thorough. Per completed Head(): no request when recent, exactly one request carrying the subjective head when stale, re-initialisation asks the trusted peers (request without trusted head) and only adopts non-expired heads; per state: at most one head request in flight (single flight) and results never decrease in completion order. Schedule part: all schedules with <= 1 preemption (thorough <= 2) of three concurrent Head() callers on a stale head: exactly one request carrying the subjective head, results never decrease.",
          "Overlapping Head() callers are explored at event granularity (a second call while the first one's request is held).", "2.3 C19"),
  "C12": ("E2-schedx", "model_checking",
          "stateless DFS over thread schedules with iterative preemption bounding on the real store code (instrumented copy generated from the working tree, controlled scheduler on synctest quiescence)",
